@@ -2,10 +2,10 @@ package main
 
 import (
 	"fmt"
-	"os"
 	"go/constant"
 	"go/token"
 	"go/types"
+	"os"
 	"strings"
 
 	"golang.org/x/tools/go/ssa"
@@ -39,28 +39,28 @@ type inputLeaf struct {
 }
 
 type Exec struct {
-	P        *Prog
-	fn       *ssa.Function
-	key      string
-	c        *Contract
-	decls    *Decls
-	obls     []*Obligation
-	entry    *State
-	mapSorts map[string]string
-	rank     int // -1 when unbounded
-	paths    int
-	retPaths int
-	unsup    []string
-	ncell    int
-	loopOf   map[*ssa.BasicBlock]*Loop
-	events   int
-	maxPaths int
-	maxSteps int
-	results  []Value // last return (for evaluator)
-	inputs   []inputLeaf
-	axioms   []Term
-	rtypeAx  map[int]bool
-	implAx   map[string]bool
+	P         *Prog
+	fn        *ssa.Function
+	key       string
+	c         *Contract
+	decls     *Decls
+	obls      []*Obligation
+	entry     *State
+	mapSorts  map[string]string
+	rank      int // -1 when unbounded
+	paths     int
+	retPaths  int
+	unsup     []string
+	ncell     int
+	loopOf    map[*ssa.BasicBlock]*Loop
+	events    int
+	maxPaths  int
+	maxSteps  int
+	results   []Value // last return (for evaluator)
+	inputs    []inputLeaf
+	axioms    []Term
+	rtypeAx   map[int]bool
+	implAx    map[string]bool
 	specDefs  map[string]*specDef
 	entryLets map[string]Value
 	evalDepth int
@@ -73,6 +73,7 @@ type Exec struct {
 	metaClauses     map[string]bool
 	assignAll       bool
 	qcount          int
+	unsupPaths      []string
 	solv            *Solvers
 	solvRef         *Solvers
 	evalState       *State
@@ -111,9 +112,17 @@ func (x *Exec) addObl(st *State, kind, label string, goal Term, pos, detail stri
 		// switch): discharged syntactically
 		goal = TTrue
 	}
+	// hypotheses that are implications with an antecedent refuted on this path say nothing here
+	hyps := make([]Term, 0, len(st.pc))
+	for _, h := range st.pc {
+		if strings.HasPrefix(h.S, "(=> ") && refutedAntecedent(st, h.S) {
+			continue
+		}
+		hyps = append(hyps, h)
+	}
 	o := &Obligation{
 		Name: shortKey(x.key) + "#" + kind + ":" + label, Func: x.key, Kind: kind, Label: label, Rank: x.rank,
-		Pos: pos, Detail: detail, Hyps: append([]Term(nil), st.pc...), Goal: goal, decls: x.decls, prog: x,
+		Pos: pos, Detail: detail, Hyps: hyps, Goal: goal, decls: x.decls, prog: x,
 		Path: strings.Join(st.path, ">"), inputs: x.inputs,
 	}
 	x.obls = append(x.obls, o)
@@ -317,11 +326,13 @@ func (x *Exec) execFrom(st *State, b *ssa.BasicBlock, idx int) {
 			continue
 		case *ssa.Call:
 			blk, next := b, i+1
-			x.doCall(st, v, func(st2 *State, res Value) {
-				if res != nil {
-					st2.top().regs[v] = res
-				}
-				x.execFrom(st2, blk, next)
+			x.guarded(st, v, func() {
+				x.doCall(st, v, func(st2 *State, res Value) {
+					if res != nil {
+						st2.top().regs[v] = res
+					}
+					x.execFrom(st2, blk, next)
+				})
 			})
 			return
 		case *ssa.Defer:
@@ -329,9 +340,30 @@ func (x *Exec) execFrom(st *State, b *ssa.BasicBlock, idx int) {
 		case *ssa.Go:
 			x.unsupportedf("go statement at %s", x.posOf(v))
 		default:
-			x.step(st, ins)
+			if !x.guarded(st, ins, func() { x.step(st, ins) }) {
+				return
+			}
 		}
 	}
+}
+
+// guarded runs f; an "unsupported" construct met on a path does not abort the whole function:
+// the path is closed with the obligation that it is unreachable under the contract's
+// preconditions (e.g. the reflect-based default arm of a kind switch).
+func (x *Exec) guarded(st *State, ins ssa.Instruction, f func()) (ok bool) {
+	defer func() {
+		if r := recover(); r != nil {
+			if u, isU := r.(unsupportedErr); isU && !strings.Contains(u.msg, "budget") {
+				x.addObl(st, "reach", "unsupported", TFalse, x.posOf(ins), "path reaches a construct outside the verified subset ("+u.msg+"); it must be unreachable")
+				x.unsupPaths = append(x.unsupPaths, u.msg)
+				ok = false
+				return
+			}
+			panic(r)
+		}
+	}()
+	f()
+	return true
 }
 
 // feasible is a cheap syntactic check (the solver-based pruning is in prune.go).
@@ -1077,7 +1109,6 @@ func (x *Exec) mapLookup(st *State, v *ssa.Lookup) Value {
 	}
 	return val
 }
-
 
 // knownLits collects path facts of the form (= sym literal).
 func knownLits(st *State) map[string]string {
